@@ -175,3 +175,71 @@ def setitem_drops_raw():
 
 def scenarios():
     return [parse(), hashbytes_raw, unhashbytes_raw, copy_keeps_raw(), setitem_drops_raw()]
+
+
+def subpacket_update_hlen():
+    """SubPacket.update_hlen: the stated length becomes (octets of the body) + 1 for the type octet, whatever the length was before
+    (also across the 191/192 boundary where the width of the length field itself changes)"""
+    label = 'C02/SubPacket.update_hlen'
+    BASE, HC = 'pgpy.packet.subpackets.types.SubPacket', 'pgpy.packet.subpackets.types.Header'
+
+    def gen(repo):
+        r = scn.Run(repo, BASE, 'update_hlen', label)
+        ex, st = r.ex, r.st
+        OLDHDR, BODY = z3.Const('HEADER_AS_WRITTEN_NOW', B), z3.Const('BODY', B)
+        r.set('sp', 'header', E.VObj(HC, 'hdr'))
+        # contracts of the callees (C09): len(header) is the number of octets the header serialises to right now
+        r.hook(HC, '__len__', scn.method_hook(lambda ex, st, o, a: [(st, E.VInt(z3.Length(OLDHDR)))]))
+        r.hook(BASE, '__bytearray__', scn.method_hook(lambda ex, st, o, a: [(st, ex.new_buf(st, z3.Concat(OLDHDR, BODY)))]))
+        for c in ('pgpy.packet.subpackets.signature.Policy',):
+            r.hook(c, '__bytearray__', scn.method_hook(lambda ex, st, o, a: [(st, ex.new_buf(st, z3.Concat(OLDHDR, BODY)))]))
+
+        def setlen(ex, st, o, a):
+            st.ghost['new_length'] = a[0]
+            return [(st, E.VNone())]
+        for pi, (s, v) in enumerate(r.call(E.VObj('pgpy.packet.subpackets.signature.Policy', 'sp'), [])):
+            if isinstance(v, E.Raise):
+                r.oblige(s, 'safety(%s)/p%d' % (v.exc.split(':')[0], pi), z3.BoolVal(False), v.where)
+                continue
+            nl = s.heap.get(('hdr', '_len'))
+            r.oblige(s, 'stated-length=body-octets+1(type-octet)/p%d' % pi, ex.as_int(nl) == z3.Length(BODY) + 1 if isinstance(nl, E.VInt) else z3.BoolVal(False))
+        return r.result()
+    return Scenario(label, BASE + '.update_hlen', gen, props=('C02', 'C08', 'C05'))
+
+
+def fresh_area(hashed):
+    """SubPackets.__hashbytearray__ / __unhashbytearray__ of a signature being made (no received octets kept): two-octet count, then the
+    subpackets in insertion order; requires each subpacket's stated size to be its serialised size (postcondition of update_hlen)"""
+    fn = '__hashbytearray__' if hashed else '__unhashbytearray__'
+    label = 'C02/SubPackets.%s[fresh signature]' % fn
+
+    def gen(repo):
+        r = scn.Run(repo, SP, fn, label)
+        ex, st = r.ex, r.st
+        r.set('subp', '_hashed_raw', E.VNone())
+        r.set('subp', '_unhashed_raw', E.VNone())
+        sps = [E.VObj('pgpy.packet.subpackets.types.SubPacket', 'sp%d' % i) for i in range(3)]
+        BY = [z3.Const('SUBPACKET_%d' % i, B) for i in range(3)]
+        d = E.VDict([(E.VTuple([E.VStr(s='k%d' % i), E.VInt(i)]), sps[i]) for i in range(3)])
+        r.set('subp', '_hashed_sp' if hashed else '_unhashed_sp', d)
+        r.set('subp', '_unhashed_sp' if hashed else '_hashed_sp', E.VDict([]))
+        idx = {x.ref: i for i, x in enumerate(sps)}
+        r.hook('pgpy.packet.subpackets.types.SubPacket', '__len__', scn.method_hook(lambda ex, st, o, a: [(st, E.VInt(z3.Length(BY[idx[o.ref]])))]))
+        r.hook('pgpy.packet.subpackets.types.SubPacket', '__bytearray__', scn.method_hook(lambda ex, st, o, a: [(st, ex.new_buf(st, BY[idx[o.ref]]))]))
+        total = z3.Length(BY[0]) + z3.Length(BY[1]) + z3.Length(BY[2])
+        st.pc += [total < 65536]
+        for pi, (s, v) in enumerate(r.call(E.VObj(SP, 'subp'), [])):
+            if isinstance(v, E.Raise):
+                r.oblige(s, 'safety(%s)/p%d' % (v.exc.split(':')[0], pi), z3.BoolVal(False), v.where)
+                continue
+            r.oblige(s, 'rfc4880-5.2.3:two-octet-count-of-the-area,then-the-subpackets-in-order/p%d' % pi,
+                     ex.seq(v, s) == z3.Concat(scn.be(total, 2), BY[0], BY[1], BY[2]))
+        return r.result()
+    return Scenario(label, SP + '.' + fn, gen, props=('C02', 'C08', 'C05'))
+
+
+_base_scn_fa = scenarios
+
+
+def scenarios():
+    return _base_scn_fa() + [subpacket_update_hlen(), fresh_area(True), fresh_area(False)]
